@@ -5,6 +5,7 @@
 import CnvVerif.Model.Fix
 import CnvVerif.Lemmas.Fix
 import CnvVerif.Lemmas.FixAlign
+import CnvVerif.Lemmas.FixWhole
 namespace CnvVerif.C04
 open CnvVerif
 
@@ -124,6 +125,34 @@ theorem fix_class_rejects_missing_or_duplicated (samp : List SRow) (ref : List R
     (hbad : hasDup (samp.map sKey) = true ∨ hasDup (ref.map rKey) = true ∨ ∃ r ∈ samp, ∀ q ∈ ref, rKey q ≠ sKey r) :
     ∃ e, loadAdjust samp ref skipLow fixGc fixEdge fixRmask par perm wing ek = .error e :=
   loadAdjust_rejects samp ref skipLow fixGc fixEdge fixRmask par perm wing ek hne hbad
+
+/-- with every bias correction off, a class of bins (targets, resp. antitargets) comes out of loading / masking /
+    centring as exactly the good sample bins in genomic order, each log2 moved by ONE constant for the class -/
+theorem nocorr_class_constant (samp : List SRow) (ref : List RRow) (skipLow : Bool) (par : Option String)
+    (perm : List Nat) (wing : Nat) (ek : Option (List Rat)) (cn : List SRow) (rf : List RRow) (sl : Rat)
+    (h : loadAdjust samp ref skipLow false false false par perm wing ek = .ok (cn, rf, sl)) :
+    ∃ c : Rat, cn = (goodRows (sortS samp) ref).map (fun r => { r with log2 := r.log2 + c }) :=
+  loadAdjust_nocorr samp ref skipLow par perm wing ek cn rf sl h
+
+/-- the whole of `do_fix`, for ANY enabled corrections, permutations, windows and weights: every emitted bin's log2
+    is the (class-adjusted) sample log2 of the bin with the SAME coordinates minus the log2 of a good reference bin
+    with the SAME coordinates, plus one constant (the final centring): the subtraction is bin-for-bin by coordinate
+    although targets and antitargets are adjusted separately, concatenated and re-sorted on both sides; the output
+    is in genomic order and has exactly the adjusted bins' coordinates.  (`hnd` is not needed by the proof.) -/
+theorem fix_subtracts_bin_for_bin_by_coordinate (tgt anti : List SRow) (ref : List RRow) (cfg : FixCfg) (P : FixParams)
+    (outs : List FixOut) (h : doFix tgt anti ref cfg P = .ok outs)
+    (hpT : IsPerm P.permT (goodRows (sortS tgt) ref).length)
+    (hpA : IsPerm P.permA (goodRows (sortS anti) ref).length)
+    (hks : KeysSortable (tgt ++ anti)) (hnd : hasDup ((tgt ++ anti).map sKey) = false) :
+    ∃ (cnT cnA : List SRow) (rfT rfA : List RRow) (s1 s2 c : Rat),
+      loadAdjust tgt ref true cfg.gc cfg.edge false cfg.par P.permT P.wingT P.edgeKeysT = .ok (cnT, rfT, s1) ∧
+      loadAdjust anti ref false cfg.gc false cfg.rmask cfg.par P.permA P.wingA = .ok (cnA, rfA, s2) ∧
+      outs.length = (cnT ++ cnA).length ∧
+      (outs.map (fun o => sKey o.row)).Perm ((cnT ++ cnA).map sKey) ∧
+      (outs.map (·.row)).Pairwise (fun a b => sSortLe a b = true) ∧
+      ∀ o ∈ outs, ∃ s ∈ cnT ++ cnA, ∃ q ∈ ref, sKey s = sKey o.row ∧ rKey q = sKey o.row ∧ badBin q = false ∧
+        o.row.log2 = s.log2 - q.log2 + c :=
+  doFix_bin_for_bin tgt anti ref cfg P outs h hpT hpA hks hnd
 
 /-! non-vacuity -/
 example : edgeLoss 100 250 = 250 / 200 - (150 : Rat) ^ 2 / (2 * 250 * 100) := by decide +kernel
